@@ -43,7 +43,7 @@ func runC16(seed uint64, n int, tier string, outDir string) []*Stats {
 		defer os.RemoveAll(root)
 	}
 	r := NewRng(seed)
-	cf := NewCoqFile("From V Require Import Common.Base C16.Checked C16.Wtf8 C16.Vlq16 C16.CssNum C16.Packet C16.Pieces C16.CssIdent C16.JsxEntities C16.CssLex C16.Globstar C16.JsLex C16.JsIdent C16.JsPragma C16.Harness.")
+	cf := NewCoqFile("From V Require Import Common.Base C16.Checked C16.Wtf8 C16.Vlq16 C16.CssNum C16.Packet C16.Pieces C16.CssIdent C16.JsxEntities C16.CssLex C16.Globstar C16.JsLex C16.JsIdent C16.JsPragma C16.ClosingTag C16.Harness.")
 	st := NewStats("c16", seed)
 	corpus, err := ExtractCorpus(repoDir())
 	if err != nil {
@@ -61,6 +61,7 @@ func runC16(seed uint64, n int, tier string, outDir string) []*Stats {
 	runJSLex(r, 2*n, st, cf)
 	runJSRoi(r, n, st, cf)
 	runPragma(r, n, st, cf)
+	runClosingTag(seed, n, st, cf) // own PRNG stream: the families above and the search below are unchanged
 	st.Finish("distinct input bytes AND (non-ASCII / multi-unit / error path / boundary) per decoder family")
 	if err := os.WriteFile(filepath.Join(outDir, "c16_cases.v"), []byte(cf.String()), 0o644); err != nil {
 		panic(err)
